@@ -235,6 +235,10 @@ def check_c14(pid, tier, t0, replay_key):
     findings += f
     obl += o
     st.update(st6)
+    f, o, st7 = e5.rule_p7(P)
+    findings += f
+    obl += o
+    st.update(st7)
     common.check_floors(pid, st, tables)
     if tier == "thorough":
         st["selftest"] = run_selftest(pid)
@@ -246,7 +250,10 @@ def check_c14(pid, tier, t0, replay_key):
         "{:.2} defect fixed in f12776d); (P3) serde skip attributes on fields of types reachable from Persistable impls equal the documented set; "
         "(P4) Persistable::read / PersistentStorage::reader are called only on the restore path of ContextItem/ContextMap::get after try_get; "
         "(P5) every metacharacter string_to_filename itself introduces ('%' escapes, '^' case suffix) is classified reserved by is_reserved_char, a "
-        "necessary condition for the glyph-name encoding to be injective. "
+        "necessary condition for the glyph-name encoding to be injective; (P6) hand-written Serialize/Deserialize pairs on IR/BE types are the audited ones "
+        "(a derive is structural, a hand-written pair is where a Vec becomes a map); (P7) no field of a serde-derived IR/BE type has a type whose serializer "
+        "is partial (PathBuf/OsString/SystemTime): Persistable::write unwraps, so such a field makes --emit-ir panic on a source the plain build compiles "
+        "(FeaturesSource's paths under a non-UTF-8 directory, reproduced: KNOWN finding). "
         "NOT decided: byte-identical font with and without --emit-ir, value equality after read-back, injectivity of string_to_filename for glyph "
         "names that differ only by case or contain reserved characters, absence of collision between the literal prefix of kerning-instance files and "
         "literal file names (value level).")
@@ -532,12 +539,16 @@ def check_c18(pid, tier, t0, replay_key):
     findings += fn5
     obl += on5
     st.update(stn5)
+    ft7, ot7, stt7 = e5.rule_t7(P)
+    findings += ft7
+    obl += ot7
+    st.update(stt7)
     st["name_flow_prefixes"] = list(NAME_FLOW)
     common.check_floors(pid, st, tables)
     if tier == "thorough":
         st["selftest"] = run_selftest(pid)
     explanation = (
-        "Decides four clauses of C18. (N5) every name record derived from the source reaches the merge with the feature file's records, which replaces one only on an equal platform/encoding/language/name-id key (no dropping adapter in between). (T4) 'name ids coming from feature code are shifted past the ids already used': every output-table field that "
+        "Decides five clauses of C18. (T7) 'ids below 256 are used only where the specification allows': fvar and STAT pick a name id by string among all ids carrying it, so every accepting path of their NameId predicates must establish id >= 256 or id in the reserved set that the allocator (StaticMetadata::new) and the fvar specification agree on (2, 17), and only the default instance may ask for a reserved id (this found subfamilyNameID=1 for a default instance named like the family; repaired). (N5) every name record derived from the source reaches the merge with the feature file's records, which replaces one only on an equal platform/encoding/language/name-id key (no dropping adapter in between). (T4) 'name ids coming from feature code are shifted past the ids already used': every output-table field that "
         "receives an id minted by fea-rs's NameBuilder (feature parameters, STAT) is one that Compilation::remap_name_ids adjusts - a forgotten field "
         "keeps naming the old id, i.e. no record or someone else's (this found FeatureParams::Size.name_entry, repaired). (T5) the function that hands out a "
         "fresh feature-code name id advances the allocator on every path (a group of empty names used to leave it untouched, so two features shared one "
@@ -547,8 +558,8 @@ def check_c18(pid, tier, t0, replay_key):
         "fvar and STAT name references, fea-rs name-id handling (compile::output, tables::name, tables::stat) and the name-id remap in "
         "FeatureCompilationWork. Each hash iteration there is auto-safe, audited with a witness, or reported (this found the find_map over "
         "StaticMetadata.names that made the default instance's subfamily-name reuse random; repaired in 57ad74d). NOT decided: referential "
-        "integrity of name ids in general (fvar/STAT lookups by string, empty records), the fallback chain for family/style/version strings (values).")
-    rule_text = "one obligation per hash-iteration site group inside the name flow, one per output-table field that receives a minted name id"
+        "integrity of name ids in general (that the string looked up by fvar/STAT has a record at all, empty records), the fallback chain for family/style/version strings (values).")
+    rule_text = "one obligation per hash-iteration site group inside the name flow, one per output-table field that receives a minted name id, one per NameId predicate and lookup caller in the backend"
     return common.finish(pid, tier, t0, findings, obl, samples, explanation, rule_text, st, [], TRUSTED,
                          f"./check {pid} --tier {tier}", replay_key)
 
